@@ -191,11 +191,26 @@ func (s *Set[T]) unsafeIterator() *fun.Iterator[T] {
 // order. If the Set is synchronize, then the Producer always holds
 // the Set's lock when called.
 func (s *Set[T]) Producer() (out fun.Producer[T]) {
-	defer s.with(s.lock())
-	defer func() { mu := s.mtx.Get(); ft.WhenDo(mu != nil, func() fun.Producer[T] { return out.WithLock(mu) }) }()
+	mu := s.lock()
+	defer s.with(mu)
 
 	if s.list != nil {
-		return s.list.Producer()
+		out = s.list.Producer()
+		if mu != nil {
+			out = out.WithLock(mu)
+		}
+		return out
+	}
+
+	if mu != nil {
+		// the keys of a map cannot be ranged incrementally under
+		// the set's lock (the range runs in its own goroutine):
+		// a synchronized set iterates over the members present now.
+		keys := make([]T, 0, len(s.hash))
+		for k := range s.hash {
+			keys = append(keys, k)
+		}
+		return fun.SliceIterator(keys).Producer()
 	}
 
 	return s.hash.ProducerKeys()
